@@ -542,6 +542,14 @@ def cases(tier, seed):
         for backend in ('make', 'ninja'):
             yield {'index': 1000 + k, 'backend': backend, 'compiler': 'gcc', 'jobs': 1,
                    'directed': 'include-spelling:' + sp, 'state': st, 'history': hist}
+    # directed: extension-less headers next to sources of the same name
+    for lang in ('c++', 'c'):
+        k += 1
+        st, hist = g.directed_sibling(lang, g.INCMODES[k % len(g.INCMODES)])
+        for backend in ('make', 'ninja'):
+            yield {'index': 1000 + k, 'backend': backend, 'compiler': 'gcc', 'jobs': 1,
+                   'directed': 'header-beside-source-of-the-same-name', 'state': st,
+                   'history': hist}
     for i in range(n):
         rng = core.rng_for(seed, 'c07', i)
         lang = ('c', 'c++')[i % 2] if quick else rng.choice(['c', 'c++'])
